@@ -167,7 +167,7 @@ type Cell struct {
 	PerInst   bool   `json:"rps_per_instance"`
 	Shared    bool   `json:"shared_client"`
 	Bound     int    `json:"bound"`
-	RPS       string `json:"rps,omitempty"` // "" once(shots) | const | composite | unlimited
+	RPS       string `json:"rps,omitempty"` // "" once(shots) | const | composite | unlimited | overdue
 }
 
 func (c Cell) Name() string {
@@ -293,6 +293,11 @@ func (r *run) scenario(x *vs.X) func(end, msg string) error {
 				return schedule.NewComposite(schedule.NewOnce(1), schedule.NewConst(0, 100*time.Millisecond), schedule.NewLine(2, 6, 500*time.Millisecond), schedule.NewOnce(1)), nil
 			case "unlimited":
 				return schedule.NewComposite(schedule.NewOnce(1), schedule.NewUnlimited(200*time.Millisecond)), nil
+			case "overdue":
+				// a profile that started 2.5 s ago: its first tokens are discarded (discard_overflow), the last is fired
+				s := schedule.NewConst(4, time.Second)
+				s.Start(time.Now().Add(-2500 * time.Millisecond))
+				return s, nil
 			}
 			return schedule.NewOnce(int64(c.Shots)), nil
 		},
@@ -368,7 +373,7 @@ func cells(thorough bool) []Cell {
 					if thorough && inst == 2 {
 						b = 2
 					}
-					rps := []string{"", "const", "composite", "unlimited"}[(pi+ri+inst)%4]
+					rps := []string{"", "const", "composite", "unlimited", "overdue"}[(pi+ri+inst)%5]
 					if p == "http-scenario" || p == "grpc-scenario" {
 						rps = "" // long executions already
 					}
@@ -378,6 +383,10 @@ func cells(thorough bool) []Cell {
 		}
 		if !strings.HasPrefix(p, "grpc") {
 			out = append(out, Cell{Pool: p, Result: "discard", Instances: 2, Shots: 4, Shared: true, Bound: 1})
+		}
+		if !strings.HasSuffix(p, "-scenario") {
+			// every pool kind with overdue tokens: the discard branch releases its ammo and reports a sample of its own
+			out = append(out, Cell{Pool: p, Result: "phout", Instances: 2, Shots: 4, Bound: 1, RPS: "overdue"})
 		}
 	}
 	return out
